@@ -33,11 +33,9 @@ func NewLocal[T any]() *Local[T] {
 // AddStoreHook adds a store hook for the given process.
 func (l *Local[T]) AddStoreHook(proc *Process, hook StoreHook[T]) bool {
 	l.mu.Lock()
-	defer l.mu.Unlock()
 
 	if val, ok := l.eager[proc]; ok {
 		l.mu.Unlock()
-		defer l.mu.Lock()
 
 		hook.Store(val)
 		return true
@@ -45,10 +43,22 @@ func (l *Local[T]) AddStoreHook(proc *Process, hook StoreHook[T]) bool {
 
 	for _, h := range l.storeHooks[proc] {
 		if h == hook {
+			l.mu.Unlock()
 			return false
 		}
 	}
+
+	first := len(l.storeHooks[proc]) == 0
 	l.storeHooks[proc] = append(l.storeHooks[proc], hook)
+
+	l.mu.Unlock()
+
+	if first {
+		// the waiters of a process that never stores a value go away with the process
+		proc.AddExitHook(ExitFunc(func(err error) {
+			l.Delete(proc)
+		}))
+	}
 	return true
 }
 
@@ -123,6 +133,7 @@ func (l *Local[T]) Delete(proc *Process) bool {
 	_, ok := l.eager[proc]
 
 	delete(l.eager, proc)
+	delete(l.lazy, proc)
 	delete(l.storeHooks, proc)
 
 	return ok
@@ -151,6 +162,13 @@ func (l *Local[T]) LoadOrStore(proc *Process, val func() (T, error)) (T, error) 
 	}
 
 	l.mu.Unlock()
+
+	if !ok {
+		// an initialiser that fails stays (it is not run again) until the process exits
+		proc.AddExitHook(ExitFunc(func(err error) {
+			l.Delete(proc)
+		}))
+	}
 
 	v, err := fn.Do()
 	if err != nil {
